@@ -71,6 +71,28 @@ ToGraph ==
    tuples |-> LET ts == SelectSeq(ns, LAMBDA x : x.k = "tup")
               IN  [i \in DOMAIN ts |-> [name |-> ts[i].name, fs |-> ts[i].fs]]]
 
+(* A seeded sample of the enumerated graphs: only states whose checksum falls in the      *)
+(* residue class SampleRem (mod SampleMod) emit cases; SampleMod = 1 takes them all.      *)
+KindCode(k) == CASE k = "int" -> 1 [] k = "bin" -> 2 [] k = "ref" -> 3 [] k = "res" -> 5
+                 [] k = "cyc" -> 7 [] k = "tup" -> 11 [] k = "par" -> 13 [] k = "uni" -> 17
+                 [] k = "fn" -> 19 [] k = "proc" -> 23
+RECURSIVE SumSeq(_)
+SumSeq(q) == IF q = <<>> THEN 0 ELSE q[1] + SumSeq(Tail(q))
+NodeCode(nd) ==
+  KindCode(nd.k)
+  + (IF nd.k \in {"tup", "par"}
+     THEN (IF nd.name = "" THEN 0 ELSE IF nd.name = "A" THEN 29 ELSE 31)
+          + SumSeq([i \in DOMAIN nd.fs |-> 3 * nd.fs[i].t + (IF nd.fs[i].l = "" THEN 0 ELSE
+                                                            IF nd.fs[i].l = "x" THEN 37 ELSE 41)])
+     ELSE 0)
+  + (IF nd.k = "uni" THEN 5 * SumSeq(nd.ms) ELSE 0)
+  + (IF nd.k = "fn" THEN 7 * nd.p + 11 * nd.r ELSE 0)
+  + (IF nd.k = "proc" THEN 13 * nd.s + 17 * nd.r ELSE 0)
+Checksum == SumSeq([i \in DOMAIN ns |-> (2 * i + 1) * NodeCode(ns[i])])
+InClass == SampleMod = 1 \/ (Checksum % SampleMod) = SampleRem
+Sampled  == Len(ns) <= 3 \/ InClass     \* C08: every graph with <= 2 nodes, a class of the larger
+SampledC == Len(ns) <= 4 \/ InClass     \* C09: every graph with <= 3 nodes, a class of the larger
+
 Covers(G, roots) ==
   {c.n : c \in UNION {Reach(G, r, <<>>) : r \in roots}} \cup {1} = DOMAIN G.types
 
@@ -89,7 +111,7 @@ Emit ==
   LET n == Len(ns)
       G == ToGraph
       W == {i \in 2..(n - 1) : WellFormed(G, i)}
-  IN  (n >= 2 /\ WellFormed(G, n)) =>
+  IN  (n >= 2 /\ SampledC /\ WellFormed(G, n)) =>
         /\ \A i \in W : Covers(G, {i, n}) => PrintCase(G, <<i, n>>)
         /\ \A i \in W : \A j \in W :
              (i < j /\ Covers(G, {i, j, n})) =>
@@ -119,26 +141,6 @@ Renderable(G, v) ==
     [] v.k = "tup" -> \A i \in DOMAIN v.fs : Renderable(G, v.fs[i])
     [] v.k = "fn"  -> v.ctx = <<>> /\ Closed(G, v.n) /\ LitT(G, G.types[v.n].r)
     [] OTHER -> FALSE
-
-(* A seeded sample of the enumerated graphs: only states whose checksum falls in the      *)
-(* residue class SampleRem (mod SampleMod) emit C08 cases; SampleMod = 1 takes them all.  *)
-KindCode(k) == CASE k = "int" -> 1 [] k = "bin" -> 2 [] k = "ref" -> 3 [] k = "res" -> 5
-                 [] k = "cyc" -> 7 [] k = "tup" -> 11 [] k = "par" -> 13 [] k = "uni" -> 17
-                 [] k = "fn" -> 19 [] k = "proc" -> 23
-RECURSIVE SumSeq(_)
-SumSeq(q) == IF q = <<>> THEN 0 ELSE q[1] + SumSeq(Tail(q))
-NodeCode(nd) ==
-  KindCode(nd.k)
-  + (IF nd.k \in {"tup", "par"}
-     THEN (IF nd.name = "" THEN 0 ELSE IF nd.name = "A" THEN 29 ELSE 31)
-          + SumSeq([i \in DOMAIN nd.fs |-> 3 * nd.fs[i].t + (IF nd.fs[i].l = "" THEN 0 ELSE
-                                                            IF nd.fs[i].l = "x" THEN 37 ELSE 41)])
-     ELSE 0)
-  + (IF nd.k = "uni" THEN 5 * SumSeq(nd.ms) ELSE 0)
-  + (IF nd.k = "fn" THEN 7 * nd.p + 11 * nd.r ELSE 0)
-  + (IF nd.k = "proc" THEN 13 * nd.s + 17 * nd.r ELSE 0)
-Checksum == SumSeq([i \in DOMAIN ns |-> (2 * i + 1) * NodeCode(ns[i])])
-Sampled == SampleMod = 1 \/ Len(ns) <= 3 \/ (Checksum % SampleMod) = SampleRem
 
 Basic ==
   {I0, [k |-> "bin", b |-> <<1>>], [k |-> "ref", i |-> 0],
